@@ -15,12 +15,13 @@ struct Args {
     replay: Option<PathBuf>,
     cases: Option<u64>,
     no_evidence: bool,
+    fuzz_only: bool,
 }
 
 fn parse() -> Args {
     let mut it = std::env::args().skip(1);
     let Some(id) = it.next() else { usage() };
-    let mut a = Args { id, tier: Tier::Quick, replay: None, cases: None, no_evidence: false };
+    let mut a = Args { id, tier: Tier::Quick, replay: None, cases: None, no_evidence: false, fuzz_only: false };
     while let Some(x) = it.next() {
         match x.as_str() {
             "--tier" => {
@@ -33,6 +34,7 @@ fn parse() -> Args {
             "--replay" => a.replay = Some(PathBuf::from(it.next().unwrap_or_else(|| usage()))),
             "--cases" => a.cases = it.next().and_then(|s| s.parse().ok()),
             "--no-evidence" => a.no_evidence = true,
+            "--fuzz-only" => a.fuzz_only = true,
             _ => usage(),
         }
     }
@@ -52,6 +54,21 @@ fn go<P: Prop>(p: P, a: &Args) -> i32 {
     }
     let shards = std::env::var("VERIF_SHARDS").ok().and_then(|s| s.parse().ok()).unwrap_or(16usize).max(1);
     let opts = RunOpts { tier: a.tier, seed: seed_from_env(), shards, budget_override: a.cases };
+    if a.fuzz_only {
+        // machinery self-test: run only the libFuzzer campaign (no evidence is written)
+        let procs = std::env::var("MCTP_FUZZ_PROCS").ok().and_then(|x| x.parse().ok()).unwrap_or(8usize);
+        let runs = std::env::var("MCTP_FUZZ_RUNS").ok().and_then(|x| x.parse().ok()).unwrap_or(1_500_000u64);
+        let res = mctp_verif::campaign::run_campaign(p.id(), opts.seed, procs, runs, std::time::Duration::from_secs(1500));
+        println!("fuzz-only {}: available={} {} stats={}", p.id(), res.available, res.note, res.stats);
+        if let Some(f) = res.found.first() {
+            let fails = vec![Failure::new(f.sig.clone(), f.detail.clone())];
+            let (path, _) = write_replay(p.id(), opts.seed, "thorough", &f.case, &fails);
+            println!("FAIL property={} sig={} :: {}", p.id(), f.sig, f.detail);
+            println!("VIOLATION property={} replay={}", p.id(), path.display());
+            return 1;
+        }
+        return if res.inconclusive || !res.available { 2 } else { 0 };
+    }
     let mut s = run_property(&p, &opts);
     // ---- engine 2: libFuzzer campaign (thorough tier of the byte-string and history properties)
     if a.tier == Tier::Thorough && s.exit == 0 && a.cases.is_none() && mctp_verif::campaign::target_for(p.id()).is_some() && std::env::var("MCTP_NO_FUZZ").is_err() {
